@@ -893,8 +893,6 @@ def classify(f: dict, d: dict, module: str, src: str = "") -> dict:
         if name.startswith("<forward-ref>"):
             return {"kind": "unresolved-name", "cause": "forward-ref-evaluated-in-builder-globals"}
         prog = f.get("program") or ""
-        if prog and name and _only_in_omit_default_tuple(prog, name):
-            return {"kind": "unresolved-name", "cause": "omit-default-tuple-repr"}
         if prog and name and _only_in_union_type_test(prog, name):
             return {"kind": "unresolved-name", "cause": "union-member-bare-name"}
         if name == types.MappingProxyType.__qualname__ and types.MappingProxyType.__module__ == "builtins" and not hasattr(builtins, name):
@@ -911,8 +909,7 @@ def classify(f: dict, d: dict, module: str, src: str = "") -> dict:
             cause = "defaultdict-factory-local"
         elif name.lstrip().startswith("CodeBuilder(") and "<locals>" in name:
             cause = "local-class-in-lazy-stub"
-        elif name.lstrip().startswith("if value != ("):
-            cause = "omit-default-tuple-repr"
+
         return {"kind": "generated-syntax-error", "cause": cause}
     return {"kind": kind, "cause": "other"}
 
@@ -924,17 +921,6 @@ def _only_in_union_type_test(prog: str, name: str) -> bool:
     for ln in prog.splitlines():
         if re.search(r"(?<![\w.])" + re.escape(name) + r"\b", ln):
             if not re.fullmatch(r"if (__value_type|type\(value\)) is " + re.escape(name) + r":", ln.strip()):
-                return False
-            hit = True
-    return hit
-
-
-def _only_in_omit_default_tuple(prog: str, name: str) -> bool:
-    import re
-    hit = False
-    for ln in prog.splitlines():
-        if re.search(r"(?<![\w.])" + re.escape(name) + r"\b", ln):
-            if not ln.strip().startswith("if value != ("):
                 return False
             hit = True
     return hit
